@@ -22,12 +22,14 @@ const (
 	aSetHandler // Session.UpdateHandler
 	aPeerClose
 	aPeerRead
+	aPeerPause // the peer does not read (any more / yet)
 	aPeerByte
 	aRecvFault
 	aWriteFault
 	aSendStep
 	aSendLost
 	aRecvEnd
+	aPick       // internal: the leaving loop reads s.rh inside quit and calls that handler's OnExit
 	lStart      // global labels
 	lArrive     // a client connects
 	lAccept     // internal: the accept loop takes the oldest waiting connection
@@ -68,7 +70,7 @@ type label struct {
 }
 
 func (l label) internal() bool {
-	return l.kind == aSendStep || l.kind == aSendLost || l.kind == aRecvEnd || l.kind == lAccept || l.kind == lAcceptFail
+	return l.kind == aSendStep || l.kind == aSendLost || l.kind == aRecvEnd || l.kind == aPick || l.kind == lAccept || l.kind == lAcceptFail
 }
 
 var rkNames = []string{"RErr", "RTimeout", "RHandlerErr", "RPanic", "RPanicNil", "RPanicErr", "RPanicCustom", "RGoexit"}
@@ -104,6 +106,8 @@ func (l label) coq() string {
 		return fmt.Sprintf("On %d PeerClose", l.i)
 	case aPeerRead:
 		return fmt.Sprintf("On %d PeerRead", l.i)
+	case aPeerPause:
+		return fmt.Sprintf("On %d PeerPause", l.i)
 	case aPeerByte:
 		return fmt.Sprintf("On %d PeerByte", l.i)
 	case aRecvFault:
@@ -116,6 +120,8 @@ func (l label) coq() string {
 		return fmt.Sprintf("On %d SendLost", l.i)
 	case aRecvEnd:
 		return fmt.Sprintf("On %d RecvEnd", l.i)
+	case aPick:
+		return fmt.Sprintf("On %d Pick", l.i)
 	}
 	panic("label")
 }
@@ -148,8 +154,8 @@ func (l label) String() string {
 	case aWriteFault:
 		return fmt.Sprintf("WriteFault(%d,%s)", l.i, wkNames[l.k])
 	}
-	names := map[int]string{aLocalClose: "LocalClose", aStartAgain: "StartAgain", aPeerClose: "PeerClose", aPeerRead: "PeerRead",
-		aPeerByte: "PeerByte", aSendStep: "SendStep", aSendLost: "SendLost", aRecvEnd: "RecvEnd"}
+	names := map[int]string{aLocalClose: "LocalClose", aStartAgain: "StartAgain", aPeerClose: "PeerClose", aPeerRead: "PeerRead", aPeerPause: "PeerPause",
+		aPeerByte: "PeerByte", aSendStep: "SendStep", aSendLost: "SendLost", aRecvEnd: "RecvEnd", aPick: "Pick"}
 	return fmt.Sprintf("%s(%d)", names[l.kind], l.i)
 }
 
@@ -179,6 +185,7 @@ type sessM struct {
 	inbox     []byte
 	hid       int // handler in charge
 	exitH     int // handler whose OnExit ran
+	picked    bool
 }
 
 type stM struct {
@@ -203,7 +210,7 @@ func (t stM) key() string {
 	fmt.Fprintf(&b, "%d|%d|%v%d%v|", t.cnt, t.pend, t.adead, t.aretry, t.fdlim)
 	for _, s := range t.ss {
 		fmt.Fprintf(&b, "%v%v%v%v%v%v%d%v%v%v%v,%d,%d,%x,%d,%d;", s.started, s.qclosed, s.copen, s.sendl, s.recvl, s.exited, s.onexit,
-			s.wfail, s.rcause, s.peerOpen, s.peerReads, s.rcvd, len(s.q), s.inbox, s.hid, s.exitH)
+			s.wfail, s.rcause, s.peerOpen, s.peerReads, s.rcvd, len(s.q), s.inbox, s.hid, s.exitH*2+b2i(s.picked))
 		for _, x := range s.q {
 			fmt.Fprintf(&b, "%x.", x)
 		}
@@ -220,7 +227,10 @@ func quitM(s sessM) (sessM, bool) {
 	s.onexit++
 	s.qclosed = true
 	s.copen = false
-	s.exitH = s.hid
+	if !s.picked {
+		s.exitH = s.hid
+	}
+	s.picked = true
 	return s, true
 }
 
@@ -263,6 +273,12 @@ func sessStep(s sessM, l label) (sessM, bool, bool) {
 			return s, false, false
 		}
 		s.peerReads = true
+		return s, false, true
+	case aPeerPause:
+		if !(s.peerOpen && s.peerReads) {
+			return s, false, false
+		}
+		s.peerReads = false
 		return s, false, true
 	case aPeerByte:
 		if !s.peerOpen {
@@ -320,6 +336,13 @@ func sessStep(s sessM, l label) (sessM, bool, bool) {
 			return s, false, true
 		}
 		return s, false, false
+	case aPick:
+		if s.picked || s.exited || !canLeave(s) {
+			return s, false, false
+		}
+		s.picked = true
+		s.exitH = s.hid
+		return s, false, true
 	case aRecvEnd:
 		if s.recvl && (s.rcause || !s.copen) {
 			s1, d := quitM(s)
@@ -329,6 +352,19 @@ func sessStep(s sessM, l label) (sessM, bool, bool) {
 		return s, false, false
 	}
 	panic("sessStep")
+}
+
+func canLeave(s sessM) bool {
+	if s.recvl && (s.rcause || !s.copen) {
+		return true
+	}
+	if !s.sendl {
+		return false
+	}
+	if len(s.q) == 0 {
+		return s.qclosed
+	}
+	return len(s.q[0]) != 0 && (!s.copen || s.wfail || !s.peerOpen)
 }
 
 func freshM(tr int, reads bool, h int) sessM {
@@ -517,7 +553,14 @@ func explore(t0 stM, issued []label, par bool, guide *obsAll) []outcome {
 	}
 	seen := map[string]bool{}
 	var outs []outcome
-	full := uint64(1)<<uint(len(issued)) - 1
+	// progress through the issued labels: a bit set for concurrent calls (at most 30 of them), a plain index for a
+	// sequence (which may be long)
+	allDone := func(done uint64) bool {
+		if par {
+			return done == uint64(1)<<uint(len(issued))-1
+		}
+		return int(done) == len(issued)
+	}
 	var rec func(t stM, done uint64, path []label)
 	rec = func(t stM, done uint64, path []label) {
 		k := fmt.Sprintf("%x#%s", done, t.key())
@@ -529,15 +572,15 @@ func explore(t0 stM, issued []label, par bool, guide *obsAll) []outcome {
 			if len(outs) > 0 || !within(t, *guide) {
 				return
 			}
-			if done == full && stableM(t) && obsOfM(t).eq(*guide) {
+			if allDone(done) && stableM(t) && obsOfM(t).eq(*guide) {
 				outs = append(outs, outcome{st: t, path: append([]label{}, path...)})
 				return
 			}
-		} else if done == full && stableM(t) {
+		} else if allDone(done) && stableM(t) {
 			outs = append(outs, outcome{st: t, path: append([]label{}, path...)})
 		}
 		for i := range t.ss {
-			for _, kd := range []int{aSendStep, aSendLost, aRecvEnd} {
+			for _, kd := range []int{aSendStep, aSendLost, aRecvEnd, aPick} {
 				l := label{kind: kd, i: i}
 				if n, ok := stepM(t, l); ok {
 					rec(n, done, append(path, l))
@@ -550,15 +593,18 @@ func explore(t0 stM, issued []label, par bool, guide *obsAll) []outcome {
 				rec(n, done, append(path, l))
 			}
 		}
-		for j := range issued {
-			if done&(1<<uint(j)) != 0 {
-				continue
+		if par {
+			for j := range issued {
+				if done&(1<<uint(j)) != 0 {
+					continue
+				}
+				if n, ok := stepM(t, issued[j]); ok {
+					rec(n, done|1<<uint(j), append(path, issued[j]))
+				}
 			}
-			if n, ok := stepM(t, issued[j]); ok {
-				rec(n, done|1<<uint(j), append(path, issued[j]))
-			}
-			if !par {
-				break // a sequence: only the next one may take effect
+		} else if int(done) < len(issued) {
+			if n, ok := stepM(t, issued[done]); ok {
+				rec(n, done+1, append(path, issued[done]))
 			}
 		}
 		// a failing Accept is tried last, so that the run found for an outcome is one with as few failures as possible
